@@ -98,3 +98,33 @@ def load_seeds(prop, verif_dir):
         with open(pp) as f:
             out.append(SeedVariant(d, f.read()))
     return out
+
+
+class FuzzVariant:
+    """Behaviour-preserving transformation (tools/benign_fuzz.py) of one file: must not change the verdict."""
+    kind = 'B'
+    rule = '-'
+    reanchor = False
+
+    def __init__(self, path, fuzz_kind):
+        self.path, self.fuzz_kind = path, fuzz_kind
+        self.note = '%s:%s' % (fuzz_kind, path)
+
+    @property
+    def name(self):
+        return 'B:fuzz:' + self.note
+
+    def apply(self, model):
+        import os
+        import sys
+        sys.path.insert(0, os.path.join(os.path.dirname(os.path.dirname(os.path.abspath(__file__))), 'tools'))
+        import benign_fuzz
+        try:
+            new = benign_fuzz.transform(model.source(self.path), self.fuzz_kind)
+            ast.parse(new)
+        except Exception as e:
+            return None, 'transformation failed: %s' % e
+        return model.with_overlay({self.path: new}), None
+
+
+FUZZ_KINDS = ('roundtrip', 'logging', 'swap', 'aug', 'rename')
